@@ -1,6 +1,7 @@
 package main
 
 import (
+	"context"
 	"encoding/json"
 	"fmt"
 	"os"
@@ -249,6 +250,41 @@ func runC09(c *runCtx) {
 			res.sample(map[string]any{"held": a, "activity": acts})
 		}
 		ast.ReleaseAST(held)
+	}
+	// two trees held at the same time are distinct objects, whatever happened before (including
+	// cancelled context-aware parses at every poll index)
+	for i := 0; i < c.n(300, 5000); i++ {
+		var acts []string
+		for k := 0; k < 1+c.rng.Intn(3); k++ {
+			b := corpus[c.rng.Intn(len(corpus))]
+			at := c.rng.Intn(8)
+			t, _ := gosqlx.ParseWithContext(&pollCtx{Context: context.Background(), k: at, err: context.Canceled}, b)
+			acts = append(acts, fmt.Sprintf("ParseWithContext(%q, cancel@%d)", truncate(b, 40), at))
+			if t != nil && c.rng.Bool() {
+				ast.ReleaseAST(t)
+			}
+		}
+		a1 := corpus[c.rng.Intn(len(corpus))]
+		a2 := corpus[c.rng.Intn(len(corpus))]
+		t1, e1 := gosqlx.Parse(a1)
+		if e1 != nil {
+			continue
+		}
+		s1 := dumpNode(t1)
+		t2, e2 := gosqlx.Parse(a2)
+		res.count("two-live|"+strings.Join(acts, "|")+"|"+a1+"|"+a2, true)
+		if e2 == nil && t1 == t2 {
+			res.fail("two-live-trees-same-object", "two parse results held at the same time are the same *ast.AST",
+				map[string]any{"history": acts, "first": a1, "second": a2}, nil)
+		}
+		if dumpNode(t1) != s1 {
+			res.fail("held-tree-modified", "a tree held by the caller changed when another statement was parsed",
+				map[string]any{"history": acts, "held": a1, "then": a2}, nil)
+		}
+		ast.ReleaseAST(t1)
+		if e2 == nil && t2 != t1 {
+			ast.ReleaseAST(t2)
+		}
 	}
 	// tokens and comments handed out by a tokenizer must survive its reuse
 	tk, _ := tokenizer.New()
